@@ -351,6 +351,27 @@ static void terminal(struct side *x, const char *op, int err)
       x->name, op, errname(err));
 }
 
+/* xcm_receive returned 0: legitimate only when the peer has closed (or given up) */
+static void unexpected_eof(struct side *x)
+{
+    struct side *p = peer_of(x);
+    /* ... or when the environment withheld the establishment beyond tcp.connect_timeout: the peer's library has
+       abandoned the connection even if its application has not been told yet (same rule as terminal()) */
+    if (p->closed || p->gave_up || env_now_ns() - g_t0 >= 3000000000LL)
+        return;
+    char sig[128];
+    snprintf(sig, sizeof sig, "C06/eof-without-close/tp=%s", g_tp);
+    V("C06", sig, "%s: xcm_receive returned 0 although the peer has not closed", x->name);
+    /* the connection has NOT ended: whatever the peer's sends accepted and this end has not obtained is
+       lost to a fabricated end-of-stream (C01/C02: same count; C04: eventually delivered) */
+    snprintf(sig, sizeof sig, "%s/eof-while-peer-alive/tp=%s", g_bytestream ? "C02" : "C01", g_tp);
+    V(g_bytestream ? "C02" : "C01", sig, "%s: xcm_receive returned 0 after %d message(s)/%lld byte(s) although the peer is "
+      "alive, has not closed and no fault was injected; the peer had %d accepted", x->name, x->n_rcv,
+      (long long)x->bytes_rcv, p->n_acc);
+    snprintf(sig, sizeof sig, "C04/eof-while-peer-alive/tp=%s", g_tp);
+    V("C04", sig, "%s: end-of-stream reported on a live connection; accepted messages will never be delivered", x->name);
+}
+
 static int do_send(struct side *x, struct op *o)
 {
     char nm[32];
@@ -476,12 +497,7 @@ static int do_recv(struct side *x, struct op *o, int until_eof)
         if (rc == 0) {
             x->eof_seen = 1;
             mc_set_progress(1);
-            struct side *p = peer_of(x);
-            if (!p->closed && !p->gave_up) {
-                char sig[128];
-                snprintf(sig, sizeof sig, "C06/eof-without-close/tp=%s", g_tp);
-                V("C06", sig, "%s: xcm_receive returned 0 although the peer has not closed", x->name);
-            }
+            unexpected_eof(x);
             return until_eof ? 0 : -1;
         }
         if (transient(err) && !x->blocking) {
@@ -572,6 +588,7 @@ static int run_loop_style(struct side *x)
             check_fd_stable(x);
             if (rc == 0) {
                 x->eof_seen = 1;
+                unexpected_eof(x);
                 return -1;
             }
             if (rc < 0 && err != EAGAIN) {
